@@ -136,7 +136,7 @@ def run(chk, args):
                     "outputs are validated"]
     chk.regenerate(UNITS)
     chk.prove()
-    n = 400 if chk.tier == "quick" else 4000
+    n = 1600 if chk.tier == "quick" else 12000
     if args.replay:
         rep = json.load(open(args.replay))
         cases = [f["replay"]["case"] for f in rep.get("failures", []) if "case" in f.get("replay", {})]
